@@ -291,6 +291,54 @@ func cmdCheck(args []string) int {
 			}
 		}
 	}
+	// guarded package variables: every module function that touches one must be among the
+	// functions verified in this run (their access sites carry the lock obligations)
+	verified := map[*ssa.Function]bool{}
+	for _, vc := range vcs {
+		verified[vc.fn] = true
+	}
+	for _, key := range sortedKeys(p.cs.Guards) {
+		gd := p.cs.Guards[key]
+		if !hasTag(gd.Tags, *prop) {
+			continue
+		}
+		sp := p.ssaPkgs[gd.Pkg]
+		if sp == nil {
+			continue
+		}
+		g, _ := sp.Members[gd.Global].(*ssa.Global)
+		o := &Obligation{Name: sp.Pkg.Name() + "." + gd.Global + "/guarded/all-accesses-under-contract", Class: "frame-scan", Func: gd.Global, Tags: gd.Tags, Expect: "unsat", Src: "guarded " + gd.Global + " by " + gd.Mutex}
+		o.Result = &SolveResult{Status: "unsat", Solver: "callgraph-scan"}
+		if g == nil {
+			o.Result = &SolveResult{Status: "error", Output: "no such package variable"}
+		} else {
+			var bad []string
+			for fn := range p.allFns {
+				if !inModule(fn) || fn.Synthetic == "package initializer" {
+					continue
+				}
+				uses := false
+				for _, b := range fn.Blocks {
+					for _, ins := range b.Instrs {
+						for _, op := range ins.Operands(nil) {
+							if *op == g {
+								uses = true
+							}
+						}
+					}
+				}
+				if uses && !verified[fn] {
+					bad = append(bad, fn.String())
+				}
+			}
+			sort.Strings(bad)
+			if len(bad) > 0 {
+				o.Result = &SolveResult{Status: "sat", Solver: "callgraph-scan", Output: "accessed outside the verified set by: " + strings.Join(bad, ", ")}
+			}
+		}
+		all = append(all, o)
+		preSolved[o] = true
+	}
 	var solveList []*Obligation
 	for _, o := range all {
 		if !preSolved[o] {
